@@ -209,6 +209,8 @@ pub struct RunCfg {
     pub query_cap: u64,
     pub fail_uniform_at: Option<u64>,
     pub fail_goal_at: Option<u64>,
+    /// run on the wall clock instead of virtual time (used by the Python mirror)
+    pub wallclock: bool,
 }
 impl Default for RunCfg {
     fn default() -> Self {
@@ -219,8 +221,26 @@ impl Default for RunCfg {
             query_cap: 3_000_000,
             fail_uniform_at: None,
             fail_goal_at: None,
+            wallclock: false,
         }
     }
+}
+
+pub fn run_history_wallclock<SP>(
+    kind: Kind,
+    params: &Params,
+    space: SP,
+    problems: &[Problem<SP::StateType>],
+    calls: &[Call],
+    cfg: &RunCfg,
+) -> Vec<CallRec<SP::StateType>>
+where
+    SP: StateSpace + Clone,
+    SP::StateType: State + Clone,
+{
+    let c = RunCfg { wallclock: true, tick_sample: cfg.tick_sample, tick_query: cfg.tick_query, cap_slack: cfg.cap_slack,
+                     query_cap: cfg.query_cap, fail_uniform_at: cfg.fail_uniform_at, fail_goal_at: cfg.fail_goal_at };
+    run_history_marked(kind, params, space, problems, calls, &c, &|_, _| {})
 }
 
 /// Runs one planner instance through `calls`. `space` is shared by all problems.
@@ -263,7 +283,7 @@ where
     }
     verif::set_recording(true);
     verif::take_events();
-    verif::set_virtual_time(Some(0));
+    verif::set_virtual_time(if cfg.wallclock { None } else { Some(0) });
 
     let ispace = Arc::new(ISpace {
         inner: space,
@@ -293,7 +313,7 @@ where
     let mut out = Vec::new();
 
     for call in calls {
-        let t_begin = verif::virtual_time().unwrap();
+        let t_begin = verif::virtual_time().unwrap_or(0);
         let (nu, ng) = {
             let mut l = log.borrow_mut();
             l.ctl.n_samples_this_call = 0;
@@ -304,7 +324,9 @@ where
                 Call::Construct => params.build_ticks,
                 _ => 0,
             };
-            l.ctl.sample_cap = if cfg.tick_sample == 0 {
+            l.ctl.sample_cap = if cfg.wallclock {
+                u64::MAX
+            } else if cfg.tick_sample == 0 {
                 100_000
             } else {
                 budget / cfg.tick_sample.max(1) + 2 + cfg.cap_slack
@@ -356,7 +378,7 @@ where
         out.push(CallRec {
             call: call.clone(),
             t_begin,
-            t_end: verif::virtual_time().unwrap(),
+            t_end: verif::virtual_time().unwrap_or(0),
             raw,
             outcome,
             snap,
